@@ -356,6 +356,8 @@ type engTable interface {
 	Flush() bool
 	Dump() string
 	WaitClean() bool
+	MergeAll() bool
+	WaitGone() bool
 }
 
 func engOpen(engine, root string, fresh uint64) (engTable, bool, uint64) {
@@ -385,6 +387,12 @@ func engRun(engine, root string, fresh uint64, ops []string) {
 			case 'F':
 				r := v.Flush()
 				if !v.WaitClean() {
+					return "TIMEOUT"
+				}
+				return drv.B01(r)
+			case 'M':
+				r := v.MergeAll()
+				if !v.WaitClean() || !v.WaitGone() {
 					return "TIMEOUT"
 				}
 				return drv.B01(r)
